@@ -271,6 +271,144 @@ def run(run):
     except Unsupported as e:
         ob3.inconclusive(str(e))
 
+    ob4 = run.ob("member-lookup-unique", "E2+z3", "Class::field / Class::fun pick a member with `iter().find(..)` over a hash set, which is order-independent only "
+                 "if at most one member matches: Class::inherit (the only place that merges two member sets) keeps a parent's member only when "
+                 "`all` own members differ from it in a key, and two members that agree in what `find` compares agree in that key (fields: the name, "
+                 "not the whole Field with its type; functions: the bare name)", ["Class::inherit::{closure}s", "Class::field::{closure}", "Class::fun::{closure}"])
+    try:
+        CLSS = "src/check/context/clss/mod.rs"
+        mine = {n: f for n, f in mir.fns.items() if f.impl_at and f.impl_at[0].endswith(CLSS) and "{closure#" in n}
+        ex4 = Exec(mir, max_paths=500)
+        cls_fields = e2.rust_struct(CLSS, "Class")
+
+        def run_closure(f, captured, item):
+            st_ = State()
+            envty = f.args[0][1].strip()
+            env = Agg("closure", envty.lstrip("&").replace("mut ", "").strip(), [Ref(ex4.new_cell(st_, captured))])
+            a1 = f.args[1][1].strip()
+            it = Ref(ex4.new_cell(st_, item))
+            if a1.startswith("&&"):
+                it = Ref(ex4.new_cell(st_, it))
+            ends_ = e2.run_kernel(run, ex4, f, [Ref(ex4.new_cell(st_, env)) if envty.startswith("&") else env, it], st_)
+            rets_ = [p for p in ends_ if p.kind == "return"]
+            if len(rets_) != 1 or len(ends_) != 1:
+                raise Unsupported(f"{f.name}: {len(ends_)} path ends")
+            return rets_[0]
+        class Merged:
+            pass
+
+        def run_bool(f, captured, item):
+            """boolean closure with several paths -> one term (disjunction of path condition and result) + all events"""
+            st_ = State()
+            envty = f.args[0][1].strip()
+            env = Agg("closure", envty.lstrip("&").replace("mut ", "").strip(), [Ref(ex4.new_cell(st_, captured))])
+            it = Ref(ex4.new_cell(st_, item))
+            if f.args[1][1].strip().startswith("&&"):
+                it = Ref(ex4.new_cell(st_, it))
+            ends_ = e2.run_kernel(run, ex4, f, [Ref(ex4.new_cell(st_, env)) if envty.startswith("&") else env, it], st_)
+            if any(p.kind != "return" or not z3.is_bool(p.ret) for p in ends_):
+                raise Unsupported(f"{f.name}: not a total boolean closure")
+            m = Merged()
+            m.ret = disj([z3.And(conj(p.cond), p.ret) for p in ends_])
+            m.events = [(p, e_) for p in ends_ for e_ in p.events]
+            return m
+        claims4, n4 = [], 0
+        for kind, setname, elemty, finder in (("field", "fields", "Field", "::field::{closure#0}"), ("function", "functions", "Function", "::fun::{closure#0}")):
+            outer = [f for n, f in mine.items() if re.search(r"::inherit::\{closure#\d+\}$", n) and elemty in f.args[1][1]]
+            find = [f for n, f in mine.items() if n.endswith(finder) and elemty in f.args[1][1]]
+            if len(outer) != 1 or len(find) != 1:
+                raise Unsupported(f"{kind}: {len(outer)} filter closures in inherit, {len(find)} find closures")
+            inner = [f for n, f in mine.items() if n.startswith(outer[0].name + "::{closure#")]
+            selfv, cand = Opq(z3.Const("self", Val), "Class"), Opq(z3.Const("candidate", Val), elemty)
+            po = run_closure(outer[0], selfv, cand)
+            alls = [e_ for e_ in po.events if e_["name"] == "Iterator::all"]
+            ok_outer = False
+            if len(alls) == 1 and len(inner) == 1:
+                it = [e_ for e_ in po.events if e_["name"] == "HashSet::iter" and z3.eq(ex4.to_val(po.state, e_["ret"]), alls[0]["argvals"][0])]
+                own_set = ex4.to_val(po.state, ex4.project(po.state, selfv, ("f", cls_fields.index(setname)), "HashSet"))
+                clo = alls[0]["args"][1]
+                ok_outer = (len(it) == 1 and z3.eq(it[0]["argvals"][0], own_set) and z3.is_expr(po.ret) and z3.eq(z3.simplify(po.ret), z3.simplify(alls[0]["ret"]))
+                            and isinstance(clo, Agg) and clo.ty == "closure" and len(clo.fields) == 1
+                            and z3.eq(ex4.to_val(po.state, clo.fields[0]), ex4.to_val(po.state, cand)))
+            claims4.append(z3.BoolVal(bool(ok_outer)))
+            n4 += 1
+            if not ok_outer:
+                continue
+            # keys: inner(own, candidate) <=> key_inherit(own) != key_inherit(candidate); find(item, wanted) <=> key_find(item) == wanted
+            a, b = Opq(z3.Const("a", Val), elemty), Opq(z3.Const("b", Val), elemty)
+            pi = run_bool(inner[0], b, a)
+            differ = pi.ret
+            w = Opq(z3.Const("wanted", Val), "?")
+            fa, fb = run_bool(find[0], w, a), run_bool(find[0], w, b)
+            hit = lambda pp: pp.ret
+            # two distinct members that `find` cannot tell apart (both match the same wanted key) are never merged: inherit sees them as equal in its key.
+            # derived PartialEq of StringName / Field / Function is structural: eq(x, y) <=> x == y, ne(x, y) <=> x != y
+            axioms = []
+            for pp in (pi, fa, fb):
+                for _p, e_ in pp.events:
+                    if e_["name"].endswith("PartialEq::eq") and z3.is_bool(e_["ret"]):
+                        axioms.append(e_["ret"] == (e_["argvals"][0] == e_["argvals"][1]))
+                    elif e_["name"].endswith("PartialEq::ne") and z3.is_bool(e_["ret"]):
+                        axioms.append(e_["ret"] == (e_["argvals"][0] != e_["argvals"][1]))
+            claims4.append(z3.Implies(z3.And(hit(fa), hit(fb), *axioms), z3.Not(differ)))
+            n4 += 1
+
+        def replay4(model):
+            bad = []
+            for nm, src in (("field-redefined-with-another-type", "class Base\n    def label: Int := 1\n\nclass Derived: Base\n    def label: Str := \"one\"\n\ndef d := Derived()\ndef s: Str := d.label\n"),
+                            ("method-redefined-with-another-result", "class Base\n    def get(self) -> Int => 1\n\nclass Derived: Base\n    def get(self) -> Str => \"one\"\n\ndef d := Derived()\ndef s: Str := d.get()\n")):
+                outs = [fresh((src, False))[0] for _ in range(2 * PROCS)]
+                if len(set(outs)) > 1:
+                    bad.append((nm, f"{src!r}: verdicts over {2 * PROCS} fresh processes: { {o: outs.count(o) for o in set(outs)} }"))
+            if bad:
+                return {"reproduced": True, "role": "member-lookup:" + bad[0][0], "detail": bad[0][1]}
+            return {"reproduced": False, "detail": f"{2 * PROCS} fresh processes give the same verdict for both programs"}
+        e2.prove(run, ob4, ex4, [], conj(claims4), {}, replay4)
+        run.samples.append({"obligation": ob4.id, "claims": n4})
+    except Unsupported as e:
+        ob4.inconclusive(str(e))
+
+    ob5 = run.ob("substituted-union-canonical", "E2", "StringName::substitute: when a generic parameter is replaced by a union of several types, the sequence of "
+                 "members put into the `Union[..]` name comes from a SORTED iteration of the set - two substitutions of the same union then build equal "
+                 "names (each HashSet has its own seed: without the sort List[Union[Int, Str]] and List[Union[Str, Int]] meet in one run, are unequal, and "
+                 "the fallback looks up a class `Union`, which is undefined)", ["<StringName as Substitute>::substitute"])
+    try:
+        fn5 = e2.find1(mir, file="src/check/name/string_name/mod.rs", impl="impl Substitute for StringName", name="substitute")
+        ex5 = Exec(mir, max_paths=5000)
+        st5 = State()
+        ends5 = e2.run_kernel(run, ex5, fn5, [Ref(ex5.new_cell(st5, Opq(z3.Const("self", Val), "StringName"))),
+                                              Ref(ex5.new_cell(st5, Opq(z3.Const("generics", Val), "HashMap<Name, Name>"))), Opq(z3.Const("pos", Val), "Position")], st5)
+        claims5, n5 = [], 0
+        for p in ends5:
+            mk = [e_ for e_ in p.events if e_["name"] == "StringName::new"]
+            if not mk:
+                continue
+            n5 += 1
+            s_ = p.state
+            direct = [e_ for e_ in p.events if e_["name"] == "Name::as_direct"]
+            its = [e_ for e_ in p.events if e_["name"].split("::")[-1] in ("iter", "into_iter") and direct and z3.eq(e_["argvals"][0], ex5.to_val(s_, direct[0]["ret"]))]
+            srt = [e_ for e_ in p.events if e_["name"].split("::")[-1] in ("sorted", "sorted_unstable")]
+            maps = [e_ for e_ in p.events if e_["name"] == "Iterator::map"]
+            ok = False
+            if len(its) == 1 and len(maps) == 1:
+                ok = any(z3.eq(s2["argvals"][0], ex5.to_val(s_, its[0]["ret"])) and z3.eq(maps[0]["argvals"][0], ex5.to_val(s_, s2["ret"])) for s2 in srt)
+            claims5.append(z3.Implies(conj(p.cond), z3.BoolVal(bool(ok))))
+        if not n5:
+            raise Unsupported("no path builds a Union name")
+
+        def replay5(model):
+            bad = []
+            for nm, src in (("list-of-union-printed", "def a := [1, \"a\"]\nprint(a)\n"), ("set-of-union-printed", "def a := {1, \"a\"}\nprint(a)\n")):
+                outs = [fresh((src, False))[0] for _ in range(2 * PROCS)]
+                if len(set(outs)) > 1:
+                    bad.append((nm, f"{src!r}: verdicts over {2 * PROCS} fresh processes: { {o: outs.count(o) for o in set(outs)} }"))
+            if bad:
+                return {"reproduced": True, "role": "substituted-union:" + bad[0][0], "detail": bad[0][1]}
+            return {"reproduced": False, "detail": f"{2 * PROCS} fresh processes give the same verdict"}
+        e2.prove(run, ob5, ex5, [], conj(claims5), {}, replay5)
+    except Unsupported as e:
+        ob5.inconclusive(str(e))
+
     if run.clean():
         # translator validation: every class shape up to 3 statements, with and without class arguments, in fresh processes
         bad = []
